@@ -231,7 +231,7 @@ def run_prefix(ctx: Ctx) -> RuleResult:
                     'clash with user rules' % fmts, construct='prefix:ebnf')
     # every generated rule goes through _name_rule
     k = repo.cls('lark.load_grammar:EBNF_to_BNF')
-    for m in k.methods.values():
+    for m in k.swept_methods():
         for n in m.body_nodes():
             if isinstance(n, ast.Call) and norm(n.func) == 'self._add_rule' and len(n.args) >= 2:
                 nm = n.args[1]
